@@ -13,9 +13,7 @@ for d in sorted(glob.glob("/verif/seeded/C*-*")):
     t = tempfile.mkdtemp(prefix="verif-seed-")
     applies = True
     try:
-        for x in ("src", "Cargo.toml", "Cargo.lock"):
-            s = os.path.join("/repo", x)
-            (shutil.copytree if os.path.isdir(s) else shutil.copy)(s, os.path.join(t, x))
+        subprocess.run(["rsync", "-a", "--exclude", "target", "--exclude", ".git", "/repo/", t + "/"], check=True)
         r = subprocess.run(["patch", "-s", "-p1", "-d", t, "-i", os.path.join(d, "patch.diff")], capture_output=True, text=True)
         applies = r.returncode == 0
         caught = {}
